@@ -192,6 +192,10 @@ def extra_templates():
     add([("x", "int"), ("y", "int")], body="\tvar f float64 = float64(x)\n\tf = f + 1\n\tvar u uint8 = uint8(y)\n\tu = u << 1\n\treturn fmt.Sprint(f, u, fx())")
     # a rule with a fix fires, then report-only rules of the same group fire in the same file (a fix must not travel)
     add([("s", "string"), ("t", "string")], body="\tvar wg sync.WaitGroup\n\twg.Add(1)\n\tok := strings.Index(s, t) >= 0\n\twg.Add(-1)\n\tu := strings.Replace(s, \"a\", t, -1)\n\tb := strings.Index(u, t) != -1\n\tr := strings.Map(unicode.ToTitle, s)\n\treturn fmt.Sprint(ok, u, b, r, fx())")
+    # quoted code that spans several lines (function literals with several statements, switch with several clauses)
+    add([("x", "int"), ("y", "int")], body="\tx = x + func() int {\n\t\tmarker(1)\n\t\tmarker(2)\n\t\treturn y\n\t}()\n\treturn fmt.Sprint(x, fx())")
+    add([("x", "int"), ("y", "int")], body="\tvar err error\n\tif err = func() error {\n\t\tmarker(1)\n\t\tmarker(2)\n\t\treturn nil\n\t}(); err != nil {\n\t\treturn \"e\" + fx()\n\t}\n\treturn fmt.Sprint(x, y, fx())")
+    add([("x", "int"), ("y", "int")], body="\tf := func(v int) int {\n\t\treturn double(v)\n\t}\n\tx = x * func() int {\n\t\tswitch {\n\t\tcase y > 1:\n\t\t\treturn 2\n\t\tcase y < 0:\n\t\t\treturn 3\n\t\t}\n\t\treturn 1\n\t}()\n\treturn fmt.Sprint(f(x), fx())")
     # strings.Cut: the index variable lives on after the statements
     add([("s", "string"), ("t", "string")], body="\tvar k, v string\n\ti := strings.Index(s, \"=\")\n\tk, v = s[:i], s[i+1:]\n\treturn fmt.Sprint(k, v, i, fx())")
     return ts
